@@ -14,6 +14,14 @@ def handle : List String → String
       | .ok d => hexOf d
       | .error _ => "err"
     | _, _, _, _, _, _ => "bad-op"
+  -- upper <nextHdr> <payload-hex>  →  upper-layer protocol and length behind the extension headers
+  | ["upper", nh, hex] =>
+    match nh.toNat?, unhex hex with
+    | some nh, some data =>
+      match upperLayer nh data with
+      | some (t, pl) => s!"ok {t} {pl.length}"
+      | none => "none"
+    | _, _ => "bad-op"
   | _ => "bad-op"
 
 end Driver.Spao
